@@ -38,11 +38,16 @@ class SimRaise(Exception):
     pass
 
 
+class _HelperReturn(Exception):
+    pass
+
+
 # ------------------------------------------------------------------------------------------------ function shape
 class Scan:
     def __init__(self, fn, consts):
         self.fn = fn
         self.consts = consts or {}
+        self.helpers = {}
         if len(fn.args.args) != 2:
             raise Unknown("swap_multiples does not take (data, multiple)")
         self.data = fn.args.args[0].arg
@@ -51,7 +56,7 @@ class Scan:
         self.prefix, self.loop, self.suffix = [], None, []
         for st in body:
             if self.loop is None:
-                if isinstance(st, ast.For):
+                if isinstance(st, (ast.For, ast.While)):
                     self.loop = st
                 elif isinstance(st, ast.If) and not st.orelse and st.body and isinstance(st.body[-1], (ast.Raise, ast.Return)):
                     continue  # the multiple <= 0 exits: rules S1/S2
@@ -62,6 +67,10 @@ class Scan:
         if self.loop is None:
             raise Unknown("swap_multiples has no scanning for-loop")
         lp = self.loop
+        self.form = "for" if isinstance(lp, ast.For) else "while"
+        if self.form == "while":
+            self._init_while(fn, lp)
+            return
         if lp.orelse or not isinstance(lp.target, ast.Name):
             raise Unknown("scanning loop with else / tuple target")
         it = lp.iter
@@ -86,6 +95,34 @@ class Scan:
             for n in ast.walk(st):
                 if isinstance(n, ast.Name) and n.id == self.ivar:
                     raise Unknown("the loop variable is used after the scanning loop")
+
+    def _init_while(self, fn, lp):
+        """while TEST(s): <scan for the end of the run> <reverse it> s = ...   -- one carried position variable."""
+        if lp.orelse or self.suffix:
+            raise Unknown("while-form scanner with else / statements after the loop")
+        self.init_names = []
+        for st in self.prefix:
+            if not (isinstance(st, ast.Assign) and len(st.targets) == 1 and isinstance(st.targets[0], ast.Name)):
+                raise Unknown("statement before the scanning loop: %s" % ast.unparse(st)[:60])
+            self.init_names.append(st.targets[0].id)
+        # carried: assigned in the body and read (in the test or the body) before being assigned in an iteration
+        assigned = [n.id for x in lp.body for n in ast.walk(x) if isinstance(n, ast.Name) and isinstance(n.ctx, ast.Store)]
+        first_store = {}
+        for x in lp.body:
+            for n in ast.walk(x):
+                if isinstance(n, ast.Name) and isinstance(n.ctx, ast.Store):
+                    first_store.setdefault(n.id, (n.lineno, n.col_offset))
+        carried = set(n.id for n in ast.walk(lp.test) if isinstance(n, ast.Name) and n.id in assigned)
+        for x in lp.body:
+            for n in ast.walk(x):
+                if isinstance(n, ast.Name) and isinstance(n.ctx, ast.Load) and n.id in first_store and (n.lineno, n.col_offset) < first_store[n.id]:
+                    carried.add(n.id)
+        carried = sorted(c for c in carried if c in self.init_names)
+        if len(carried) != 1:
+            raise Unknown("expected exactly one carried position variable in the while-form scanner, found %r" % carried)
+        self.cvar = carried[0]
+        self.ivar = None
+        self.bound = None
 
     def is_pred(self, t):
         """t is `data[IDX] % multiple == 0` (-> IDX, positive) or `!= 0` (-> IDX, negative), else None."""
@@ -137,6 +174,9 @@ class Interp:
         self.effects = []  # closed effects of this iteration: ("swap", A, B, k, T) / ("slice", lo, hi, first, dir, n)
         self.temps = {}  # name -> token (an element value held in a local)
         self.stored = False
+        self.dnames = {scan.data}  # names bound to the buffer (the parameter; a helper's parameter while it is inlined)
+        self.all_p = []  # (lo, hi): positions lo..hi-1 are known to hold multiples (established by a scan loop)
+        self.depth = 0
 
     # -- numbers
     def num(self, e):
@@ -152,12 +192,12 @@ class Interp:
                 return Aff(v) if self.sym else v
             raise Unknown("name %s in swap_multiples" % e.id)
         if isinstance(e, ast.Call) and isinstance(e.func, ast.Name) and e.func.id == "len" and len(e.args) == 1 \
-                and isinstance(e.args[0], ast.Name) and e.args[0].id == self.s.data:
+                and isinstance(e.args[0], ast.Name) and e.args[0].id in self.dnames:
             return self.L if self.sym else len(self.tok)
         if isinstance(e, ast.UnaryOp) and isinstance(e.op, ast.USub):
             return -self.num(e.operand)
         if isinstance(e, ast.BinOp):
-            if _reads_data(e, self.s.data) and not (isinstance(e.left, ast.Call) or isinstance(e.right, ast.Call)):
+            if any(_reads_data(e, d) for d in self.dnames) and not (isinstance(e.left, ast.Call) or isinstance(e.right, ast.Call)):
                 raise Unknown("arithmetic on buffer contents: %s" % ast.unparse(e))
             a, b = self.num(e.left), self.num(e.right)
             op = e.op
@@ -272,14 +312,14 @@ class Interp:
 
     def elem(self, e):
         """The value of an element-valued expression: data[IDX] or a temp."""
-        if isinstance(e, ast.Subscript) and isinstance(e.value, ast.Name) and e.value.id == self.s.data and not isinstance(e.slice, ast.Slice):
+        if isinstance(e, ast.Subscript) and isinstance(e.value, ast.Name) and e.value.id in self.dnames and not isinstance(e.slice, ast.Slice):
             return self.load(self.num(e.slice))
         if isinstance(e, ast.Name) and e.id in self.temps:
             return self.temps[e.id]
         raise Unknown("element expression %s" % ast.unparse(e))
 
     def is_elem_target(self, t):
-        return isinstance(t, ast.Subscript) and isinstance(t.value, ast.Name) and t.value.id == self.s.data and not isinstance(t.slice, ast.Slice)
+        return isinstance(t, ast.Subscript) and isinstance(t.value, ast.Name) and t.value.id in self.dnames and not isinstance(t.slice, ast.Slice)
 
     # -- statements
     def block(self, body):
@@ -299,7 +339,7 @@ class Interp:
         if isinstance(st, ast.Assign) and len(st.targets) == 1:
             t, v = st.targets[0], st.value
             if isinstance(t, ast.Name):
-                if (isinstance(v, ast.Subscript) and isinstance(v.value, ast.Name) and v.value.id == self.s.data and not isinstance(v.slice, ast.Slice)):
+                if (isinstance(v, ast.Subscript) and isinstance(v.value, ast.Name) and v.value.id in self.dnames and not isinstance(v.slice, ast.Slice)):
                     self.temps[t.id] = self.elem(v)
                     self.env.pop(t.id, None)
                     return
@@ -316,13 +356,164 @@ class Interp:
                 for x, val in zip(t.elts, vals):
                     self.store(self.num(x.slice), val)
                 return
-            if isinstance(t, ast.Subscript) and isinstance(t.value, ast.Name) and t.value.id == self.s.data and isinstance(t.slice, ast.Slice):
+            if isinstance(t, ast.Subscript) and isinstance(t.value, ast.Name) and t.value.id in self.dnames and isinstance(t.slice, ast.Slice):
                 self.slice_assign(t.slice, v)
                 return
         if isinstance(st, ast.For):
             self.inner_for(st)
             return
+        if isinstance(st, ast.While):
+            self.inner_while(st)
+            return
+        if isinstance(st, ast.Expr) and isinstance(st.value, ast.Call) and isinstance(st.value.func, ast.Name) and st.value.func.id in self.s.helpers:
+            self.call_helper(st.value)
+            return
+        if isinstance(st, ast.Return) and st.value is None and self.depth > 0:
+            raise _HelperReturn()
         raise Unknown("statement %s in swap_multiples" % ast.unparse(st)[:70])
+
+    # -- helpers are inlined
+    def call_helper(self, call):
+        fn = self.s.helpers[call.func.id]
+        if call.keywords or len(call.args) != len(fn.args.args) or self.depth >= 3:
+            raise Unknown("call %s" % ast.unparse(call)[:60])
+        saved = (self.env, self.temps, self.dnames)
+        env, dn = {}, set()
+        for prm, a in zip(fn.args.args, call.args):
+            if isinstance(a, ast.Name) and a.id in self.dnames:
+                dn.add(prm.arg)
+            else:
+                env[prm.arg] = self.num(a)
+        if len(dn) != 1:
+            raise Unknown("helper %s is not handed the buffer exactly once" % call.func.id)
+        if self.s.mult in saved[0]:
+            env.setdefault(self.s.mult, saved[0][self.s.mult])
+        self.env, self.temps, self.dnames = env, {}, dn
+        self.depth += 1
+        try:
+            self.block([x for x in fn.body if not (isinstance(x, ast.Expr) and isinstance(x.value, ast.Constant))])
+        except _HelperReturn:
+            pass
+        finally:
+            self.depth -= 1
+            self.env, self.temps, self.dnames = saved
+
+    # -- while loops inside an iteration: a scan over multiples, or a two-pointer swap loop
+    def inner_while(self, st):
+        if st.orelse:
+            raise Unknown("while-else")
+        if not self.sym:
+            n = 0
+            while self.test(st.test):
+                n += 1
+                if n > 10000:
+                    raise SimRaise("a loop does not terminate")
+                self.block(st.body)
+            return
+        conj = st.test.values if isinstance(st.test, ast.BoolOp) and isinstance(st.test.op, ast.And) else [st.test]
+        preds = [c for c in conj if self.s.is_pred(c) is not None]
+        if preds:
+            self.scan_loop(st, conj, preds)
+        else:
+            self.swap_while(st)
+
+    def scan_loop(self, st, conj, preds):
+        """while v < E and data[v] % multiple == 0: v += 1   ->   v = the first position >= v0 that is E or holds a non-multiple;
+        positions v0..v-1 hold multiples."""
+        if len(preds) != 1 or len(st.body) != 1:
+            raise Unknown("scan loop %s" % ast.unparse(st.test)[:60])
+        idx_e, positive = self.s.is_pred(preds[0])
+        b = st.body[0]
+        if not (positive and isinstance(idx_e, ast.Name) and isinstance(b, ast.AugAssign) and isinstance(b.target, ast.Name) and b.target.id == idx_e.id
+                and isinstance(b.op, ast.Add) and isinstance(b.value, ast.Constant) and b.value.value == 1 and idx_e.id in self.env):
+            raise Unknown("scan loop %s does not step its index by one over multiples" % ast.unparse(st.test)[:60])
+        if conj[-1] is not preds[0]:
+            raise Unknown("the multiple-test of a scan loop is not guarded by the bound test")
+        v = idx_e.id
+        v0 = self.env[v]
+        self.close_block()
+        if self.writes or self.effects:
+            raise Unknown("a scan loop after stores in the same iteration")
+        bound = None
+        for c in conj[:-1]:
+            if isinstance(c, ast.Compare) and len(c.ops) == 1 and isinstance(c.left, ast.Name) and c.left.id == v and isinstance(c.ops[0], (ast.Lt, ast.NotEq)):
+                e_ = self.num(c.comparators[0])
+                bound = e_ if bound is None else bound
+                if isinstance(c.ops[0], ast.NotEq) and B.prove_ge0(e_ - v0) is not True:
+                    raise Unknown("scan loop bounded by != without the index starting below the bound")
+            else:
+                raise Unknown("scan loop condition %s" % ast.unparse(c))
+        if bound is None:
+            raise Unknown("scan loop without a bound test")
+        fits = B.prove_ge0(self.L - bound) is True and B.prove_ge0(v0) is True
+        self.obl.append(("C10.R4 indices-in-bounds", fits, "scan reads positions %r..%r-1 of a buffer of %r" % (B.norm(v0), B.norm(bound), B.norm(self.L))))
+        if not B.decide_ge0(bound - v0 - 1, "scan starts below its bound"):
+            return  # the loop does not run
+        nm = B.fresh("end-of-run", 0, None)
+        B.assume_ge0(nm - v0)
+        B.assume_ge0(bound - nm)
+        self.env[v] = nm
+        self.all_p.append((v0, nm))
+        self.run_end_is_bound = B.cur().choose("the run reaches the scan bound")
+        if self.run_end_is_bound:
+            B.assume_eq0(nm - bound)
+            B._check_alive()
+        else:
+            B.assume_ge0(bound - nm - 1)  # position nm exists and holds a non-multiple
+            B._check_alive()
+
+    def swap_while(self, st):
+        """while low < high: swap(data[low], data[high]); low += 1; high -= 1   ->   a family with a closed-form trip count."""
+        counters = {}
+        body_rest = []
+        for b in st.body:
+            if isinstance(b, ast.AugAssign) and isinstance(b.target, ast.Name) and isinstance(b.op, (ast.Add, ast.Sub)) and b.target.id in self.env:
+                d = self.num(b.value)
+                c = B.const_of(d)
+                if c is None:
+                    raise Unknown("loop counter advanced by a non-constant")
+                counters[b.target.id] = counters.get(b.target.id, 0) + (int(c) if isinstance(b.op, ast.Add) else -int(c))
+            else:
+                body_rest.append(b)
+        if not counters:
+            raise Unknown("while loop %s without counters" % ast.unparse(st.test)[:60])
+        for b in st.body:
+            # counters must be advanced after the stores (so that the stores of iteration k use the values at its head)
+            if b in body_rest and any(isinstance(x, ast.AugAssign) for x in st.body[:st.body.index(b)]):
+                raise Unknown("stores after a counter update inside a swap loop")
+        if not isinstance(st.test, ast.Compare) or len(st.test.ops) != 1:
+            raise Unknown("swap loop test %s" % ast.unparse(st.test))
+        a, b_ = self.num(st.test.left), self.num(st.test.comparators[0])
+        op = st.test.ops[0]
+        g0 = {ast.Lt: b_ - a - 1, ast.LtE: b_ - a, ast.Gt: a - b_ - 1, ast.GtE: a - b_}.get(type(op))
+        if g0 is None:
+            raise Unknown("swap loop test %s" % ast.unparse(st.test))
+        entry = dict(self.env)
+        shifted = {n: entry[n] + d for n, d in counters.items()}
+        self.env.update(shifted)
+        a1, b1 = self.num(st.test.left), self.num(st.test.comparators[0])
+        self.env = dict(entry)
+        g1 = {ast.Lt: b1 - a1 - 1, ast.LtE: b1 - a1, ast.Gt: a1 - b1 - 1, ast.GtE: a1 - b1}[type(op)]
+        gamma = B.const_of(g1 - g0)
+        if gamma is None or gamma >= 0:
+            raise Unknown("swap loop test does not decrease by a constant")
+        step = int(-gamma)
+        self.close_block()
+        if not B.decide_ge0(g0, "swap loop entered"):
+            return
+        T = B.divmod_const(g0, step)[0] + 1
+        k = B.fresh("k", 0, None)
+        B.assume_ge0(T - 1 - k)
+        ksym = list(k.t)[0]
+        self.env = {n: (entry[n] + Aff.of(k).scale(counters[n]) if n in counters else entry[n]) for n in entry}
+        saved_temps = dict(self.temps)
+        self.block(body_rest)
+        pairs = self.net_transpositions("swap loop at line %d" % st.lineno)
+        self.writes = []
+        self.temps = saved_temps
+        self.env = {n: (entry[n] + Aff.of(T).scale(counters[n]) if n in counters else entry[n]) for n in entry}
+        for x, y in pairs or []:
+            self.effects.append(("swap", x, y, ksym, T))
 
     # -- inner loop: for k in range(T): <swaps>
     def inner_for(self, st):
@@ -437,7 +628,7 @@ class Interp:
             if sl.step is not None and step not in (1, -1):
                 raise Unknown("slice step %s" % ast.unparse(sl.step))
             step = step or 1
-            base_is_data = isinstance(v.value, ast.Name) and v.value.id == self.s.data
+            base_is_data = isinstance(v.value, ast.Name) and v.value.id in self.dnames
             if not base_is_data:
                 f, d, n = self.seq_sym(v.value)
                 if sl.lower is None and sl.upper is None:
@@ -477,7 +668,7 @@ class Interp:
         if isinstance(v, ast.Subscript) and isinstance(v.slice, ast.Slice):
             sl = v.slice
             parts = [None if x is None else self.num(x) for x in (sl.lower, sl.upper, sl.step)]
-            base = self.tok if (isinstance(v.value, ast.Name) and v.value.id == self.s.data) else self.seq_conc(v.value)
+            base = self.tok if (isinstance(v.value, ast.Name) and v.value.id in self.dnames) else self.seq_conc(v.value)
             return list(base[slice(*parts)])
         raise Unknown("sequence expression %s" % ast.unparse(v))
 
@@ -534,13 +725,26 @@ def _iteration(scan, virtual_last=False):
         obl.append(("C10.R1 run-counter-inductive", True, "last position: the counter is not used again"))
     # R2, R3
     run_lo, run_hi = i - c, i - 1
+    _effect_obligations(it, obl, [(run_lo, run_hi + 1)])
+    if it.stored and not last:
+        obl.append(("C10.R2 stores-inside-the-scanned-run", B.is_zero(c1),
+                    "an iteration that stores must reset the counter (next run cannot overlap this one): c' = %r" % B.norm(c1)))
+    return obl, it.stored
+
+
+def _effect_obligations(it, obl, runs):
+    """R2 (every store inside one of `runs` = [(lo, hi)]: positions lo..hi-1 known to hold multiples) and R3 (the effect
+    is an involution that keeps the length)."""
+    def in_a_run(lo_i, hi_i):
+        # positions lo_i .. hi_i-1 inside one run
+        return any(B.prove_ge0(lo_i - lo) is True and B.prove_ge0(hi - hi_i) is True for lo, hi in runs)
+    shown = ", ".join("[%r, %r)" % (B.norm(lo), B.norm(hi)) for lo, hi in runs) or "none"
     for eff in it.effects:
         if eff[0] == "swap":
             _, a, b, ksym, T = eff
             for nm, idx in (("first", a), ("second", b)):
-                inside = B.prove_ge0(idx - run_lo) is True and B.prove_ge0(run_hi - idx) is True
-                obl.append(("C10.R2 stores-inside-the-scanned-run", inside,
-                            "swap %s index %r, run is [%r, %r]" % (nm, B.norm(idx), B.norm(run_lo), B.norm(run_hi))))
+                obl.append(("C10.R2 stores-inside-the-scanned-run", in_a_run(idx, idx + 1),
+                            "swap %s index %r, run(s) of multiples: %s" % (nm, B.norm(idx), shown)))
             if ksym is not None:
                 na, nb = B.norm(a), B.norm(b)
                 da, db = na.t.get(ksym, 0), nb.t.get(ksym, 0)
@@ -556,10 +760,9 @@ def _iteration(scan, virtual_last=False):
                 obl.append(("C10.R3 per-iteration-involution", True, "one transposition (%r, %r)" % (B.norm(a), B.norm(b))))
         else:
             _, lo, hi, first, direction, n = eff
-            inside = B.prove_ge0(lo - run_lo) is True and B.prove_ge0(run_hi + 1 - hi) is True
             empty = B.is_zero(hi - lo) and B.is_zero(n)
-            obl.append(("C10.R2 stores-inside-the-scanned-run", inside or empty,
-                        "slice [%r, %r) assigned, run is [%r, %r]" % (B.norm(lo), B.norm(hi), B.norm(run_lo), B.norm(run_hi))))
+            obl.append(("C10.R2 stores-inside-the-scanned-run", in_a_run(lo, hi) or empty,
+                        "slice [%r, %r) assigned, run(s) of multiples: %s" % (B.norm(lo), B.norm(hi), shown)))
             same_len = B.is_zero(n - (hi - lo))
             obl.append(("C10.R3 per-iteration-involution", same_len,
                         "slice of %r positions receives %r elements%s" % (B.norm(hi - lo), B.norm(n), "" if same_len else ": the length changes")))
@@ -569,9 +772,52 @@ def _iteration(scan, virtual_last=False):
                 obl.append(("C10.R3 per-iteration-involution", rev or ident or empty,
                             "slice [%r, %r) receives the elements from %r going %+d: %s"
                             % (B.norm(lo), B.norm(hi), B.norm(first), direction, "its own reversal" if rev else "itself" if ident else "another region")))
-    if it.stored and not last:
-        obl.append(("C10.R2 stores-inside-the-scanned-run", B.is_zero(c1),
-                    "an iteration that stores must reset the counter (next run cannot overlap this one): c' = %r" % B.norm(c1)))
+
+
+def _written_extent(it):
+    """[(lowest index form, one past the highest)] of each effect, for the disjointness obligations."""
+    out = []
+    for eff in it.effects:
+        if eff[0] == "swap":
+            out.append((eff[1], eff[1] + 1))
+            out.append((eff[2], eff[2] + 1))
+        else:
+            out.append((eff[1], eff[2]))
+    return out
+
+
+def _iteration_while(scan):
+    """One generic iteration of a while-form scanner: the carried position s is arbitrary (>= 0) with the loop test true."""
+    L = B.fresh("len", 0, None)
+    mult = B.fresh("multiple", 1, None)
+    pre = Interp(scan, True, L, {scan.mult: mult})
+    for st in scan.prefix:
+        pre.stmt(st)
+    env0 = pre.env
+    obl = []
+    s_init = env0[scan.cvar]
+    obl.append(("C10.R0 counter-starts-at-zero", B.prove_ge0(s_init) is True, "%s = %r before the loop (a position)" % (scan.cvar, B.norm(s_init))))
+    s = B.fresh("s", 0, None)
+    env = dict(env0)
+    env[scan.cvar] = s
+    it = Interp(scan, True, L, env)
+    if not it.test(scan.loop.test):
+        raise B.DeadPath()
+    it.block(scan.loop.body)
+    it.close_block()
+    if len(it.effects) > 1:
+        raise Unknown("several separate buffer updates in one iteration (their composition is not analysed)")
+    obl.extend(it.obl)
+    s1 = it.env[scan.cvar]
+    obl.append(("C10.R1 run-counter-inductive", B.prove_ge0(s1 - s) is True, "the position never moves backwards: %r -> %r" % (B.norm(s), B.norm(s1))))
+    _effect_obligations(it, obl, list(it.all_p))
+    for lo, hi in _written_extent(it):
+        # the supports of different iterations are disjoint: this one writes inside [s, s')
+        ok = B.prove_ge0(lo - s) is True and B.prove_ge0(s1 - hi) is True
+        if B.is_zero(hi - lo):
+            ok = True
+        obl.append(("C10.R2 stores-inside-the-scanned-run", ok,
+                    "stores to [%r, %r) must lie between this iteration's position %r and the next one's %r" % (B.norm(lo), B.norm(hi), B.norm(s), B.norm(s1))))
     return obl, it.stored
 
 
@@ -586,6 +832,14 @@ def _replay(scan, tokens, pattern):
     if scan.mult in env:
         raise Unknown("multiple is reassigned")
     it = Interp(scan, False, None, env, tok, pattern)
+    if scan.form == "while":
+        n = 0
+        while it.test(scan.loop.test):
+            n += 1
+            if n > 10000:
+                raise SimRaise("the scanning loop does not terminate")
+            it.block(scan.loop.body)
+        return it.tok
     E = it.num(scan.bound)
     for i in range(max(0, E)):
         env[scan.ivar] = i
@@ -624,6 +878,7 @@ def run_clause(rep, index, m):
     fn = m.functions["swap_multiples"]
     try:
         scan = Scan(fn, m.consts)
+        scan.helpers = {name: f for name, f in m.functions.items() if name != fn.name}
         # R5, structural part: the predicate is found somewhere in the loop and no index reads the contents
         preds = [n for n in ast.walk(scan.loop) if scan.is_pred(n) is not None]
         if not preds:
@@ -631,7 +886,7 @@ def run_clause(rep, index, m):
         jobs = [("iteration", False)] + ([("after the loop", True)] if scan.suffix else [])
         results = []
         for what, virtual in jobs:
-            paths = B.explore(lambda v=virtual: _iteration(scan, v))
+            paths = B.explore((lambda: _iteration_while(scan)) if scan.form == "while" else (lambda v=virtual: _iteration(scan, v)))
             for p, st, val in paths:
                 if st != "ok":
                     raise Unknown("the abstract iteration raises %s" % (val,))
